@@ -438,11 +438,13 @@ func (s *Source) Seek(off int64, whence int) (int64, error) {
 
 // ReadResult is everything the reader API returned for one file.
 type ReadResult struct {
-	CtorErr  error
-	Rows     int64
-	Recs     []*dremel.Tree
-	Err      error // Error() after Next returned false
-	Panic    interface{}
+	CtorErr error
+	Rows    int64
+	Recs    []*dremel.Tree
+	Err     error // Error() after Next returned false
+	Panic   interface{}
+	// Held: the Go values the records were scanned into (pointers to sh.Type)
+	Held     []reflect.Value
 	Stack    string
 	NextTrue int
 	Capped   bool   // stopped by the logical iteration cap
@@ -489,6 +491,7 @@ func ReadAll(sh *Shape, src io.ReadSeeker, cap int) (res ReadResult) {
 			res.NextAfterEnd = true
 		}
 	}
+	res.Held = held
 	for i, h := range held {
 		if t := sc.FromGo(h.Elem()); !dremel.Equal(t, res.Recs[i]) {
 			res.Drift = fmt.Sprintf("record %d changed after it was scanned: was %s, now %s", i, sc.Render(res.Recs[i]), sc.Render(t))
